@@ -43,12 +43,20 @@ impl Value {
     // unchecked variants for type-specialized opcodes (hot paths)
     #[inline(always)]
     pub fn as_int_unchecked(&self) -> i64 {
+        #[cfg(vbxq_aelys_lang_verif)]
+        if !self.is_int() {
+            crate::verif::mismatch();
+        }
         debug_assert!(self.is_int(), "type confusion: not an int");
         ((self.0 & PAYLOAD_MASK) << 16) as i64 >> 16
     }
 
     #[inline(always)]
     pub fn as_float_unchecked(&self) -> f64 {
+        #[cfg(vbxq_aelys_lang_verif)]
+        if !self.is_float() {
+            crate::verif::mismatch();
+        }
         debug_assert!(self.is_float(), "type confusion: not a float");
         f64::from_bits(self.0)
     }
